@@ -1,5 +1,6 @@
 """C01 Instruction encoding is exactly the bit layout the ISA definition prescribes."""
 import random
+import re
 
 from harness import runner, tlc, isagen
 from checks import widepart
@@ -48,7 +49,20 @@ def enc_eval(e):
     isa, stmt, kinds = isagen.encode_isa(lay, e.get('variant', 0))
     n = len(exp)
     res = []
-    for (src, start) in ((stmt + '\n', 0), (f'.org 37\n.byte 1, 2, 3\nhere:\npad\n{stmt}\npad\n.byte here\n', 41)):
+    # second placement: other address, other surrounding program, numbers written as constants, and an earlier statement that
+    # differs from the one under test only in the letter case of those constant names (and so in its operand values)
+    nums = sorted(set(re.findall(r'(?<![\w$])\d+(?![\w])', stmt)), key=lambda x: -len(x))
+    stmt_lc, stmt_uc, consts = stmt, stmt, []
+    for j, nstr in enumerate(nums):
+        if kinds and all(k in ('numeric', 'numeric+code', 'indirect_numeric', 'indirect_numeric+code', 'deferred_numeric', 'address', 'indirect_register+offset') for k in kinds):
+            stmt_lc = re.sub(r'(?<![\w$])%s(?![\w])' % nstr, f'cv{j}', stmt_lc)
+            stmt_uc = re.sub(r'(?<![\w$])%s(?![\w])' % nstr, f'CV{j}', stmt_uc)
+            consts.append(f'cv{j} = {nstr}')
+            consts.append(f'CV{j} = {(int(nstr) + 1) % 8}')
+    twin = (stmt_uc + '\n') if consts else ''
+    pad_n = 0
+    src2 = '\n'.join(consts) + ('\n' if consts else '') + f'.org 37\n.byte 1, 2, 3\nhere:\npad\n'
+    for (src, start) in ((stmt + '\n', 0), (src2 + f'{stmt_lc}\npad\n.byte here\n' + ('.org 200\n' + twin if twin else ''), 41)):
         case = {'config': isa, 'files': {'main.asm': src}, 'start': start, 'end': start + n - 1}
         obs = runner.run_case(case)
         if obs['status'] != 'ok':
